@@ -586,6 +586,18 @@ impl Tcp {
     }
 }
 
+/// Verification hook (`--cfg turmoil_verif`): read-only table sizes.
+#[cfg(turmoil_verif)]
+impl Host {
+    pub(crate) fn verif_counts(&self) -> (usize, usize, usize) {
+        (
+            self.udp.binds.len(),
+            self.tcp.binds.len(),
+            self.tcp.sockets.len(),
+        )
+    }
+}
+
 /// Returns whether the given bind addr can accept a packet routed to the given dst
 pub fn matches(bind: SocketAddr, dst: SocketAddr) -> bool {
     if bind.ip().is_unspecified() && bind.port() == dst.port() {
